@@ -1,6 +1,6 @@
 # edge: root.timeout.curr_fiber
 (defn work [] (def x (array/concat @[] (range 5))) (ev/sleep 0.01) (gccollect) (ev/sleep 0.01) x)
-(print (string/format "%j" (ev/with-deadline 2 (work))))
+(print (string/format "%j" (ev/with-deadline 600 (work))))
 (def f (ev/go (fn [] (try (ev/with-deadline 0.01 (ev/sleep 0.3) :no) ([e] (print "deadline: " e))))))
 (ev/sleep 0)
 (gccollect)
